@@ -295,11 +295,28 @@ impl SimDriver {
         }
 
         if !settle {
+            // enumerated completion order: only the next handler gate of the order may be opened
+            let next_in_order: Option<usize> = if plan.gate_order.is_empty() {
+                None
+            } else {
+                let gs = self.w.gates.borrow();
+                let handlers: Vec<&crate::world::Gate> = gs.iter().filter(|g| matches!(g.kind, GateKind::Publish | GateKind::Proto)).collect();
+                // first entry of the order whose gate is not opened yet (a gate that does not exist yet blocks
+                // the ones behind it: the order is the point)
+                plan.gate_order
+                    .iter()
+                    .map(|k| handlers.get(*k as usize))
+                    .find(|g| g.is_none_or(|g| g.opened.is_none() && !g.exited && !g.dropped))
+                    .flatten()
+                    .map(|g| g.id)
+                    .or(Some(usize::MAX))
+            };
             for g in self.w.gates.borrow().iter() {
                 if g.exited || g.dropped {
                     continue;
                 }
-                if g.parked && g.opened.is_none() && !g.held {
+                let in_turn = next_in_order.is_none_or(|n| n == g.id || !matches!(g.kind, GateKind::Publish | GateKind::Proto));
+                if g.parked && g.opened.is_none() && !g.held && in_turn {
                     acts.push((Act::OpenGate(g.id), 20));
                 }
                 if g.read_waiting && g.read_credit == 0 {
